@@ -126,6 +126,15 @@ func run(ch simrt.Chooser, prop string, keep bool) *kit.Outcome {
 func (w *world) main() {
 	ch := simrt.Choose
 	nOps := ch("cfg.ops", 9)
+	long := false
+	if ch("cfg.long", 60) == 59 {
+		// rarely: more than a thousand writes in a row (whatever the writer
+		// counts or samples per write reaches its threshold)
+		simrt.Probe("over_a_thousand_writes")
+		nOps = 1030 + ch("cfg.long.n", 300)
+		simrt.RaiseStepCap(200000)
+		long = true
+	}
 	withSW := ch("cfg.stringwriter", 2) == 1
 	nCons := 1 + ch("cfg.consumers", 2)
 	kinds := make([]int, nCons)
@@ -149,7 +158,10 @@ func (w *world) main() {
 	// one run in eight moves gigabytes: the running total passes 2^31 and 2^32.
 	// The buffer is one untouched (never paged in) allocation per process; the
 	// wrapped writer only looks at lengths, and strings alias it.
-	huge := ch("cfg.huge", 8) == 7
+	if long {
+		sizes = []int{0, 1, 7, 1, 7, 4096}
+	}
+	huge := !long && ch("cfg.huge", 8) == 7
 	if huge {
 		simrt.Probe("total_beyond_2GiB")
 		sizes = []int{1 << 30, 1<<30 + 7, 1 << 29, 64 * 1024, 1, 1<<31 - 1}
